@@ -487,16 +487,37 @@ def install_models(M):
         M.store(selfp, 8, NULL); st(selfp, 8, impl)
         M.extra.setdefault('ioc', {})[(selfp.obj, selfp.off)] = impl
     def ioc_post(sched, op, cont): M.fifo.append(op)
+    # io_context::stop() / stopped() are inlined by clang: they write / read scheduler::stopped_ (boost 1.83: field
+    # 11, a bool) of the scheduler object, which here is the 512-byte stand-in.  poll / poll_one / restart honour it.
+    def stopped_off():
+        off = M.extra.get('sched_stopped_off', -1)
+        if off == -1:
+            off = None
+            t = M.m.types.get('class.boost::asio::detail::scheduler')
+            if t is not None:
+                rt = M.L.resolve(t)
+                if rt.k == 'struct' and len(rt.a) > 11 and M.L.resolve(rt.a[11]).k == 'int' and M.L.size(rt.a[11]) == 1:
+                    off = M.L.field_offset(rt, 11)
+            M.extra['sched_stopped_off'] = off
+        return off
+    def is_stopped(impl):
+        off = stopped_off()
+        if off is None: return False
+        v = M.load_scalar(P(impl, off), 'i', 8, 1)
+        return bool(M.concretize(v, 'scheduler stopped flag'))
+    def ioc_restart(selfp):
+        off = stopped_off()
+        if off is not None: M.store(P(ld(selfp, 8), off), 1, 0)
     def ioc_poll(selfp):
         impl = ld(selfp, 8)
         n = 0
-        while M.fifo:
+        while M.fifo and not is_stopped(impl):
             op = M.fifo.pop(0)
             run_op(op, impl); n += 1
         return n
     def ioc_poll_one(selfp):
         impl = ld(selfp, 8)
-        if not M.fifo: return 0
+        if not M.fifo or is_stopped(impl): return 0
         op = M.fifo.pop(0)
         run_op(op, impl)
         return 1
@@ -511,7 +532,7 @@ def install_models(M):
     X['_ZN5boost4asio6detail9scheduler25post_immediate_completionEPNS1_19scheduler_operationEb'] = ioc_post
     X['_ZN5boost4asio10io_context4pollEv'] = ioc_poll
     X['_ZN5boost4asio10io_context8poll_oneEv'] = ioc_poll_one
-    X['_ZN5boost4asio10io_context7restartEv'] = lambda s: None
+    X['_ZN5boost4asio10io_context7restartEv'] = ioc_restart
     X['_ZN5boost4asio10io_contextD2Ev'] = ioc_dtor; X['_ZN5boost4asio10io_contextD1Ev'] = ioc_dtor
 
     # ---- libstdc++ out-of-line (non-template) ----------------------------------------------------------------
